@@ -22,16 +22,16 @@ use serde::{Deserialize, Serialize};
 use std::collections::BTreeMap;
 use std::sync::Mutex;
 
-/// Iteration budgets. With an l1 part the solver's duality gap can close: 1e5 (quick: 1e4).
+/// Iteration budgets. With an l1 part the solver's duality gap can close: 1e5 (quick: 5000).
 /// Without one (penalty * l1_ratio == 0) the implementation's gap has no dual part (const = 0) and
 /// equals the primal objective, so on noisy targets it never falls below tol * ||y||^2 and the run
 /// ends on the cap whatever the budget (measured: 0.14 s / 0.54 s per such run at 1e5, which alone
-/// would cost more than the whole thorough budget): those runs get 1e4 (quick: 1e3) and are judged
+/// would cost more than the whole thorough budget): those runs get 2000 (quick: 200) and are judged
 /// like any other run if they do converge.
 pub const MAX_ITER: u32 = 100_000;
-const MAX_ITER_QUICK: u32 = 10_000;
-const MAX_ITER_NO_L1: u32 = 10_000;
-const MAX_ITER_NO_L1_QUICK: u32 = 1_000;
+const MAX_ITER_QUICK: u32 = 5_000;
+const MAX_ITER_NO_L1: u32 = 2_000;
+const MAX_ITER_NO_L1_QUICK: u32 = 200;
 const PENALTIES: [f64; 5] = [0.0, 0.01, 0.1, 1.0, 10.0];
 const L1_RATIOS: [f64; 3] = [0.0, 0.5, 1.0];
 const TOLS: [f64; 2] = [1e-4, 1e-8];
@@ -210,7 +210,7 @@ struct Tol {
 }
 fn tol_of(float: &str) -> Tol {
     if float == "f32" {
-        Tol { c_obj: 1e-4, c_gap: 1e-5, c_orth: 1e-4, c_pred: 1e-5, c_mean: 1e-5 }
+        Tol { c_obj: 1e-4, c_gap: 1e-4, c_orth: 1e-5, c_pred: 1e-5, c_mean: 1e-5 }
     } else {
         Tol { c_obj: 1e-9, c_gap: 1e-12, c_orth: 1e-8, c_pred: 1e-12, c_mean: 1e-12 }
     }
@@ -304,6 +304,15 @@ fn run_fit(data: &Data, s: &Spec, viols: &mut Vec<Violation>, st: &mut Stats) {
     }
     let finite = out.w.iter().flatten().chain(out.b.iter()).all(|v| v.is_finite()) && out.gap.is_finite();
     if !finite {
+        let all_nan = out.w.iter().flatten().all(|v| v.is_nan());
+        if s.est == "mtl" && all_nan && s.penalty * s.l1_ratio == 0.0 {
+            viols.push(Violation::new(
+                "mtl.fit.nan_coefficients_without_l1_part",
+                format!("every coefficient is NaN (gap {}, n_steps {}) with penalty*l1_ratio = 0: block soft-thresholding of an exactly zero correlation vector with threshold 0 divides 0 by 0", out.gap, out.n_steps),
+                case_json(),
+            ));
+            return;
+        }
         viols.push(Violation::new(format!("{}.fit.non_finite", s.est), format!("non-finite result: w={:?} b={:?} gap={}", out.w, out.b, out.gap), case_json()));
         return;
     }
@@ -338,7 +347,8 @@ fn run_fit(data: &Data, s: &Spec, viols: &mut Vec<Violation>, st: &mut Stats) {
     if out.n_steps >= s.max_iter {
         st.inc("not_converged_iteration_cap");
         st.inc(if prob.lam1 > 0.0 { "not_converged_with_l1_part" } else { "not_converged_without_l1_part" });
-        let f32_ok = s.float == "f64" || s.tol >= 1e-4;
+        let mags: Vec<f64> = x.iter().flatten().map(|v| v.abs()).filter(|&v| v > 0.0).collect();
+        let f32_ok = s.float == "f64" || (s.tol >= 1e-4 && mags.iter().all(|&v| (1e-2..=1e2).contains(&v)));
         if prob.lam1 > 0.0 && f32_ok && refmodel::orthogonal_centred(&x) {
             st.inc("cap_on_orthogonal_centred_design_checked");
             viols.push(Violation::new(
@@ -384,7 +394,22 @@ fn run_fit(data: &Data, s: &Spec, viols: &mut Vec<Violation>, st: &mut Stats) {
     let xmean: Vec<f64> = (0..p).map(|j| x.iter().map(|r| r[j]).sum::<f64>() / n as f64).collect();
     let xw: Vec<f64> = (0..t).map(|tt| (0..p).map(|j| xmean[j] * out.w[j][tt]).sum::<f64>()).collect();
     let offset_effect = xw.iter().any(|v| v.abs() > 1e-6 * yrms);
-    let narrow = int_bad && !coef_bad && b_is_ymean && offset_effect;
+    // the gap bounds the true suboptimality (reference optimum from the harness's own solver)
+    let pimpl = prob.objective(&out.w, &out.b);
+    let pstar = refmodel::solve(&prob, s.intercept);
+    let global_bad = match pstar {
+        Some(ps) => {
+            st.inc("global_optimum_checked");
+            pimpl - ps > bound
+        }
+        None => {
+            st.inc("global_check_skipped_reference_unconverged");
+            false
+        }
+    };
+    // closed form of the known defect: the returned point is the minimiser with the intercept frozen at
+    // mean(y) (coefficients coordinate-wise optimal for that intercept) although mean(X).w != 0
+    let narrow = (int_bad || global_bad) && !coef_bad && b_is_ymean && offset_effect;
     if s.intercept && offset_effect {
         st.inc("judged_with_intercept_on_offset_features");
     }
@@ -395,21 +420,29 @@ fn run_fit(data: &Data, s: &Spec, viols: &mut Vec<Violation>, st: &mut Stats) {
             case_json(),
         ));
     }
-    if int_bad {
+    if narrow {
         let joint: Vec<f64> = (0..t).map(|tt| out.b[tt] + pert.mean_r[tt]).collect();
-        if narrow {
-            viols.push(Violation::new(
-                format!("{}.intercept_is_target_mean_on_offset_features_not_joint_optimum", s.est),
-                format!(
-                    "intercept {:?} == mean(y) while mean(X).w = {:?} != 0: moving the intercept to {:?} (w fixed) lowers the objective by {:e}, reported gap/n + eps = {:e} (gap {:e}, n_steps {}); coefficients are optimal for the frozen intercept (best coefficient perturbation gains {:e}); w={:?}",
-                    out.b, xw, joint, pert.d_int, bound, out.gap, out.n_steps, pert.d_coef, out.w
-                ),
-                case_json(),
-            ));
-        } else {
+        viols.push(Violation::new(
+            format!("{}.intercept_is_target_mean_on_offset_features_not_joint_optimum", s.est),
+            format!(
+                "intercept {:?} == mean(y) while mean(X).w = {:?} != 0 (column means {:?}): the point is optimal only for the frozen intercept (best coefficient perturbation gains {:e}); moving the intercept alone to {:?} lowers the objective by {:e}, the joint optimum lies {:e} lower; reported gap/n + eps = {:e} (gap {:e}, n_steps {}); w={:?}",
+                out.b, xw, xmean, pert.d_coef, joint, pert.d_int, pstar.map_or(f64::NAN, |ps| pimpl - ps), bound, out.gap, out.n_steps, out.w
+            ),
+            case_json(),
+        ));
+    } else {
+        if int_bad {
             viols.push(Violation::new(
                 format!("{}.intercept_perturbation_lowers_objective_beyond_gap", s.est),
                 format!("{} lowers the objective by {:e}, but reported gap/n + eps = {:e} (gap {:e}, n_steps {}); w={:?} b={:?} mean(y)={:?} residual means={:?}", pert.int_at, pert.d_int, bound, out.gap, out.n_steps, out.w, out.b, ymean, pert.mean_r),
+                case_json(),
+            ));
+        }
+        if global_bad {
+            let ps = pstar.unwrap();
+            viols.push(Violation::new(
+                format!("{}.gap_not_upper_bound_on_suboptimality", s.est),
+                format!("objective at the returned point {:e}, reference optimum {:e}: suboptimality {:e} > gap/n + eps = {:e} (gap {:e}, n_steps {}); w={:?} b={:?}", pimpl, ps, pimpl - ps, bound, out.gap, out.n_steps, out.w, out.b),
                 case_json(),
             ));
         }
@@ -441,21 +474,6 @@ fn run_fit(data: &Data, s: &Spec, viols: &mut Vec<Violation>, st: &mut Stats) {
         }
     }
 
-    // ---- the gap bounds the true suboptimality (reference optimum from the harness's own solver)
-    match refmodel::solve(&prob, s.intercept) {
-        Some(pstar) => {
-            st.inc("global_optimum_checked");
-            let pimpl = prob.objective(&out.w, &out.b);
-            if pimpl - pstar > bound && !narrow {
-                viols.push(Violation::new(
-                    format!("{}.gap_not_upper_bound_on_suboptimality", s.est),
-                    format!("objective at the returned point {:e}, reference optimum {:e}: suboptimality {:e} > gap/n + eps = {:e} (gap {:e}, n_steps {}); w={:?} b={:?}", pimpl, pstar, pimpl - pstar, bound, out.gap, out.n_steps, out.w, out.b),
-                    case_json(),
-                ));
-            }
-        }
-        None => st.inc("global_check_skipped_reference_unconverged"),
-    }
 }
 
 fn judge_ols(x: &[Vec<f64>], y: &[Vec<f64>], s: &Spec, out: &FitOut, tl: &Tol, viols: &mut Vec<Violation>, st: &mut Stats, case_json: &dyn Fn() -> Value) {
@@ -568,7 +586,7 @@ fn specs_for(ctx: &Ctx, task: &Task) -> Vec<Spec> {
             let target_sets: Vec<Vec<usize>> = if est == "enet" {
                 ctx.pick(vec![vec![0], vec![2]], vec![vec![0], vec![1], vec![2]])
             } else {
-                ctx.pick(vec![vec![0, 1], vec![0, 1, 2]], vec![vec![0], vec![0, 1], vec![0, 1, 2]])
+                ctx.pick(vec![vec![0, 1, 2]], vec![vec![0], vec![0, 1], vec![0, 1, 2]])
             };
             for targets in target_sets {
                 for &penalty in &PENALTIES {
